@@ -601,6 +601,24 @@ theorem parseData_cov (R : ReaderSpecs) (R2 : ReaderSpecs2) (r : Rd) (V : Bytes)
   exact (j4 hk).2 (by omega)
 
 
+/-- `parseData_cov` phrased with `decTL`, for a value made of bytes (< 256) -/
+theorem parseData_cov_decTL (R : ReaderSpecs) (R2 : ReaderSpecs2) (r : Rd) (V : Bytes) (s : DataSt) (sv : Bytes)
+    (hwf : Bytes.WF V) : At r V 0 → parseData {} r = .ok s → s.v.sv = some sv →
+    ∃ s0 e h, s0 ≤ e ∧ 0 < h ∧ e + h + sv.length ≤ V.length
+      ∧ s.sigCovered = (V.drop s0).take (e - s0)
+      ∧ sv = (V.drop (e + h)).take sv.length
+      ∧ (∃ t l rest, decTL (V.drop e) = some (t, rest) ∧ t = 23 ∧ decTL rest = some (l, V.drop (e + h)) ∧ l = sv.length)
+      ∧ (V.headD 0 ∈ [7, 20, 21, 22, 23] → s0 = 0) := by
+  intro ha e hsv
+  obtain ⟨s0, e, h1, h2, g1, g2, g3, g4, g5, g6, g7, g8, g9⟩ := parseData_cov R R2 r V s sv ha e hsv
+  have hsub : ∀ a b, Bytes.WF ((V.drop a).take b) := fun a b z hz =>
+    hwf z (List.mem_of_mem_drop (List.mem_of_mem_take hz))
+  have d1 := rdTL_decTL g7 (hsub _ _)
+  have d2 := rdTL_decTL g8 (hsub _ _)
+  rw [List.drop_drop] at d1 d2
+  refine ⟨s0, e, h1 + h2, g1, by omega, by omega, g5, by rw [← Nat.add_assoc]; exact g6,
+    ⟨23, sv.length, V.drop (e + h1), d1, rfl, by rw [← Nat.add_assoc]; exact d2, rfl⟩, g9⟩
+
 /-! ### tamper detection -/
 
 /-- a packet that is exactly one Data TLV: `ReadData` returns what the Data parser reports for the value -/
